@@ -23,6 +23,7 @@ from ..codegen.irdag import SelectionGraphBuilder, prepare_function_info
 from ..codegen.irdag import FunctionInfo
 from ..codegen.dagsplit import DagSplitter
 from ..binutils import debuginfo
+from ..utils.bitfun import to_signed
 from .arch import WasmArchitecture
 from .arch import I32Register, I64Register, F32Register, F64Register
 
@@ -674,7 +675,13 @@ class IrToWasmCompiler:
             self.emit(load_op, 0, 0)  # offset, align
         elif tree.name in self.const_opcodes:
             opcode = self.const_opcodes[tree.name]
-            self.emit(opcode, tree.value)
+            value = tree.value
+            if opcode == "i32.const":
+                # The immediate of a wasm integer constant is signed
+                value = to_signed(value, 32)
+            elif opcode == "i64.const":
+                value = to_signed(value, 64)
+            self.emit(opcode, value)
             self.stack += 1
         elif tree.name == "LABEL":  # isinstance(tree, ir.LiteralData):
             if tree.value in self.global_labels:
